@@ -8,3 +8,6 @@ import TsVerif.C18.Props
 #print axioms TsVerif.C18.cache_reset_ok
 #print axioms TsVerif.C18.cache_correct_utf16
 #print axioms TsVerif.C18.queue_insert_sorted
+#print axioms TsVerif.C18.queue_sorted_dedup_partial
+#print axioms TsVerif.C18.queue_lowest_pattern_wins
+#print axioms TsVerif.C18.drain_skips_ignored
